@@ -317,6 +317,10 @@ def tasks(tier):
     for lo in range(0, n, 2 * CHUNK[tier]):
         for fmt in FORMATS:
             out.append({"kind": "regen", "tier": tier, "fmt": fmt, "lo": lo, "hi": min(n, lo + 2 * CHUNK[tier])})
+    out.append({"kind": "signature"})
+    for fmt in FORMATS:
+        out.append({"kind": "carried", "fmt": fmt})
+        out.append({"kind": "defaults", "fmt": fmt})
     return out
 
 
@@ -339,12 +343,16 @@ def _build(M, spec, V):
     if spec["C"]:
         raw.cells += [list(c) for c in spec["C"]]
     if spec["C"]:
-        return M.mesh.VolumeMesh(raw)
-    if spec["F"]:
-        return M.mesh.SurfaceMesh(raw)
-    if spec["E"]:
-        return M.mesh.PolyLine(raw)
-    return M.mesh.PointCloud(raw)
+        mesh = M.mesh.VolumeMesh(raw)
+    elif spec["F"]:
+        mesh = M.mesh.SurfaceMesh(raw)
+    elif spec["E"]:
+        mesh = M.mesh.PolyLine(raw)
+    else:
+        mesh = M.mesh.PointCloud(raw)
+    if spec.get("carry"):
+        _attach(mesh, spec["carry"])
+    return mesh
 
 
 def _num(x):
@@ -693,6 +701,11 @@ class _Ctx:
                 self.rep.count("ignclean:" + fmt)
                 self.rep.flag(f"ignclean:{fmt}:{sw['src']}->{sw['left']}")
             return
+        if self.mode == "carried":
+            if not sw.get("base"):
+                self.rep.count("carriedclean:" + fmt)
+                self.rep.flag(f"carriedclean:{fmt}:{sw['carry']}")
+            return
         self.rep.count("clean:" + fmt)
         self.rep.flag("clean:" + fmt + ":" + kinds)
 
@@ -714,6 +727,18 @@ def _report(ctx, phase, clause, callee, kind, fmt, kinds, sw, detail, tagged=Tru
         else:
             _violation(ctx.rep, f"C04.ignore.{clause}", callee, kind, f"{fmt}:{kinds}:left={sw['left']}", detail)
         return
+    if ctx.mode == "carried":
+        # the carried clause reports only what NEEDS the attribute: a failure the same mesh shows without it is not its
+        key = (fmt, phase, clause, kind, kinds)
+        if sw.get("base"):
+            ctx.seen[(sw["bt"],) + key] = True
+            ctx.rep.count("carried_fails_without_attribute")
+        elif (sw["bt"],) + key in ctx.seen:
+            ctx.rep.count("carried_same_as_without_attribute")
+        else:
+            ctx.rep.flag("carried_reported:geometry:" + fmt)
+            _violation(ctx.rep, f"C04.carried.{clause}", callee, kind, _carried_class(ctx, key, fmt, sw), detail)
+        return
     key = (fmt, phase, clause, kind, kinds)
     base = f"{fmt}:{kinds}"
     if sw["id"] == "default" or not tagged or key in ctx.seen:
@@ -722,6 +747,16 @@ def _report(ctx, phase, clause, callee, kind, fmt, kinds, sw, detail, tagged=Tru
     else:
         icls = base + ":" + ("ign" if "ign" in sw else sw["id"])
     _violation(ctx.rep, f"C04.{phase}.{clause}", callee, kind, icls, detail)
+
+
+def _carried_class(ctx, key, fmt, sw):
+    """ONE class per defect: a set of attributes that fails like one of its members did is that member's failure, and a
+    failure already seen under the default switches does not need the switch deviation it is seen under again"""
+    first = ctx.seen.get(("first",) + key)
+    if first is None or not set(first[0].split("+")) <= set(sw["carry"].split("+")):
+        first = (sw["carry"], sw["bt"])
+        ctx.seen.setdefault(("first",) + key, first)
+    return f"{fmt}:{first[0]}" + ("" if first[1] == "default" else ":" + first[1])
 
 
 def _text(path, limit=1500):
@@ -752,6 +787,8 @@ def run_case(ctx, spec, salt, fmt, sw):
         path = ctx.path(fmt)
         small = {"mesh": spec["name"], "V": V if len(V) <= 12 else f"{len(V)} vertices", "E": spec["E"], "F": spec["F"],
                  "C": spec["C"], "format": fmt, "switches": sw}
+        if spec.get("carry"):
+            small["attributes"] = spec["carry"]
         if spec["n"] > 0:
             rep.case((spec["name"], fmt, sw["id"]))
         ign = set(sw["ign"]) if "ign" in sw else None
@@ -773,7 +810,10 @@ def run_case(ctx, spec, salt, fmt, sw):
         if stl:
             _case_stl(ctx, exp, snap, path, fmt, kinds, sw, small)
         else:
-            _case_text(ctx, exp, snap, path, fmt, kinds, sw, small)
+            geometry_ok = _case_text(ctx, exp, snap, path, fmt, kinds, sw, small)
+            if ctx.mode == "carried" and spec.get("carry") and geometry_ok:
+                if _carried_values(ctx, spec, exp, path, fmt, sw, small):
+                    _carried_second_generation(ctx, spec, path, fmt, sw, small)
 
 
 def _judge_written(rep, fmt, text, exp):
@@ -784,6 +824,8 @@ def _judge_written(rep, fmt, text, exp):
     issues = []
     try:
         ref = K.PARSERS[fmt](text, issues) if fmt == "geogram_ascii" else K.PARSERS[fmt](text)
+        if fmt == "obj" and ("\nvn " in text or "\nvt " in text):
+            K.parse_obj_refs(text)              # the references of the corners to vt / vn records must resolve as well
         rep.transitions += 1
     except K.RefParseError as e:
         ref = None
@@ -861,6 +903,7 @@ def _case_text(ctx, exp, snap, path, fmt, kinds, sw, small):
                 {**small, **rfail[2], "file": text[:1500]})
     if not wfails and not rfail:
         ctx.clean(fmt, kinds, sw)
+    return not wfails and not rfail
 
 
 def _case_stl(ctx, exp, snap, path, fmt, kinds, sw, small):
@@ -1274,13 +1317,13 @@ def regen_vectors(fmt):
     return [{"id": "default"}, {"id": "C=0", "C": False}] + ([{"id": "X=0", "X": False}] if fmt == "obj" else [])
 
 
-def _attr_dump(raw, snap):
+def _attr_dump(raw, snap, only=None):
     """every attribute of a RawMeshData as plain values: {"container|name": {"type", "arity", "values"}}"""
     import numpy as np
     out = {}
     for cname, size in CONTAINER_SIZES.items():
         cont = getattr(raw, cname, None)
-        if cont is None:
+        if cont is None or (only is not None and cname not in only):
             continue
         for name in sorted(cont.attributes):
             a = cont.get_attribute(name)
@@ -1835,12 +1878,646 @@ def run_attr(task, rep, tmp):
             rep.violation(f"C04.{phase}.{clause}", callee, kind, f"geogram_ascii:attr:{label}", failures[sig][witness])
 
 
+# ================================================================================================ carried attributes
+# Formats have ATTRIBUTE-DRIVEN branches: the writers / readers look for well-known attributes (grep of the io modules:
+# vertices 'normals' - xyz six-column records, obj vn records; vertices / face_corners 'uv_coords' - obj vt records; faces
+# 'normals' - created by the ASCII STL reader; edges 'hard_edges' - the declared-edge variants of the families above).
+# A mesh that carries them is a mesh like any other: coordinates and elements exactly as without, and where the format
+# carries the attribute its values are in the file (independent reader) and come back on load.
+_CUBE = [[0.0, 0.0, 0.0], [1.0, 0.0, 0.0], [1.0, 1.0, 0.0], [0.0, 1.0, 0.0], [0.0, 0.0, 1.0], [1.0, 0.0, 1.0], [1.0, 1.0, 1.0], [0.0, 1.0, 1.0]]
+CARRY_HOSTS = [
+    {"name": "carry:cloud", "n": 4, "E": [], "F": [], "C": [], "host": "cloud"},
+    {"name": "carry:polyline", "n": 4, "E": [[0, 1], [2, 1]], "F": [], "C": [], "host": "polyline"},
+    {"name": "carry:tri", "n": 6, "E": [], "F": [[0, 1, 2], [2, 1, 3], [4, 2, 3]], "C": [], "host": "surface"},    # vertex 5: in no face
+    {"name": "carry:mixed", "n": 7, "E": [], "F": [[0, 1, 2], [0, 2, 3, 4], [0, 4, 5, 6, 1]], "C": [], "host": "surface"},
+    {"name": "carry:tri+declared-edges", "n": 5, "E": [[1, 0], [0, 4]], "F": [[0, 1, 2], [2, 1, 3]], "C": [], "host": "surface"},
+    {"name": "carry:tets", "n": 5, "E": [], "F": [], "C": [[0, 1, 2, 3], [1, 2, 3, 4]], "host": "volume"},
+    {"name": "carry:hex", "n": 8, "E": [], "F": [], "C": [[0, 1, 2, 3, 4, 5, 6, 7]], "host": "volume", "xyz": _CUBE},
+]
+CARRY_ATTRS = {"vertices.normals": ("vertices", "normals", 3), "vertices.uv_coords": ("vertices", "uv_coords", 2),
+               "face_corners.uv_coords": ("face_corners", "uv_coords", 2), "faces.normals": ("faces", "normals", 3)}
+CARRY_SETS = {"cloud": ["vertices.normals", "vertices.uv_coords", "vertices.normals+vertices.uv_coords"],
+              "surface": ["vertices.normals", "vertices.uv_coords", "vertices.normals+vertices.uv_coords", "face_corners.uv_coords",
+                          "faces.normals", "vertices.normals+face_corners.uv_coords"]}
+CARRY_SETS["polyline"] = CARRY_SETS["volume"] = CARRY_SETS["cloud"]
+CARRY_STORAGE = [(False, "full"), (True, "full"), (False, "holes")]          # (dense, value pattern)
+# which single attributes a format carries (the file says their values; they come back on load)
+CARRIES = {"xyz": ["vertices.normals"], "obj": ["vertices.normals", "vertices.uv_coords", "face_corners.uv_coords"],
+           "geogram_ascii": sorted(CARRY_ATTRS)}
+CARRY_READ = {"xyz": ["vertices.normals"], "obj": ["vertices.normals", "face_corners.uv_coords", "vertices.normals+face_corners.uv_coords"],
+              "stl": ["faces.normals"]}
+_CARRY_BASE = [0.1, -1.5, 1 / 3, 1e-30, 0.75, -2.5e-7, 123456789.123456789, 3.0, -0.0625]
+_CARRY_SALT = {"vertices.normals": 0, "vertices.uv_coords": 4, "face_corners.uv_coords": 2, "faces.normals": 7}
+
+
+def _carry_row(label, i, arity, pattern="full", f32=False):
+    """the value of element i of a carried attribute: every component of every element different (a permutation, an
+    off-by-one or a repeated index in a writer / reader shows), exact doubles"""
+    if pattern == "holes" and i % 2 == 1:
+        return [0.0] * arity
+    row = []
+    for j in range(arity):
+        k = arity * i + j + _CARRY_SALT[label]
+        x = _CARRY_BASE[k % 9] * (1 + k // 9)
+        if f32:
+            from mc import c04_codecs as K
+            x = K.f32(x)
+        row.append(x)
+    return row
+
+
+def _attach(mesh, carry):
+    for label in carry["set"].split("+"):
+        cname, name, arity = CARRY_ATTRS[label]
+        cont = getattr(mesh, cname)
+        a = cont.create_attribute(name, float, arity, dense=carry["dense"])
+        for i in range(len(cont)):
+            if carry["pattern"] == "holes" and i % 2 == 1:
+                continue
+            a[i] = _carry_row(label, i, arity)
+
+
+def _carry_sizes(snap):
+    return {"vertices": len(snap["V"]), "faces": len(snap["F"]), "face_corners": sum(len(f) for f in snap["F"])}
+
+
+def _hexrow(row):
+    return [float(x).hex() for x in row]
+
+
+def _loaded_attr(obj, cname, name, arity, size):
+    """-> (problem or None, rows of hex strings) of a float attribute of a loaded Mesh / RawMeshData"""
+    cont = getattr(obj, cname, None)
+    if cont is None:
+        return "missing", None
+    prob, vals = _read_attr(cont, name, "float", arity, size)
+    return prob, vals
+
+
+def _carried_values(ctx, spec, exp, path, fmt, sw, small, gen=""):
+    """after the geometry of a mesh with carried attributes was judged right: the attribute values in the file (independent
+    reader) and on the reloaded mesh, for the formats that carry them -> True when every value was found right
+    (gen = "regen_" for the second generation: the subchecks are C04.carried.regen_file_values / regen_loaded_values)"""
+    from mc import c04_codecs as K
+    M, rep = ctx.M, ctx.rep
+    carry = spec["carry"]
+    labels = carry["set"].split("+")
+    corners = [v for f in exp["F"] for v in f]           # vertex of every face corner the file holds
+    in_face = sorted(set(corners))
+    sizes = {"vertices": len(exp["V"]), "faces": len(exp["F"]), "face_corners": len(corners)}
+    want = {lb: [_hexrow(_carry_row(lb, i, CARRY_ATTRS[lb][2], carry["pattern"])) for i in range(sizes[CARRY_ATTRS[lb][0]])]
+            for lb in labels}
+    with open(path, "r", newline="") as f:
+        text = f.read()
+    all_ok = [True]
+
+    def bad(phase, callee, label, kind, detail):
+        all_ok[0] = False
+        rep.flag(f"carried_reported:{gen}{phase}:{fmt}:{label}")
+        icls = _carried_class(ctx, ("values", gen + phase, label, kind), fmt, dict(sw, carry=label))
+        _violation(rep, f"C04.carried.{gen}{phase}", callee, kind, icls, {**small, **detail, "file": text[:1500]})
+
+    def loaded(raw):
+        o = call(M.mesh.load, path, raw=raw)
+        return o.value if o.ok else None
+
+    for label in labels:
+        cname, name, arity = CARRY_ATTRS[label]
+        if label not in CARRIES.get(fmt, ()):
+            continue
+        if fmt == "obj" and label == "vertices.uv_coords" and "face_corners.uv_coords" in labels:
+            continue                              # one vt reference per corner: which of the two wins is not documented
+        if cname != "vertices" and (not exp["F"] or len(exp["F"]) != len(spec["F"])):
+            rep.count("carried_not_expressible")         # the faces are ignored: their attributes go with them
+            continue
+        rep.evaluations += 2
+        # ---------------- the file, for the independent reader: (index of the element, hex row the file gives)
+        file_rows = None
+        try:
+            if fmt == "xyz":
+                rows = K.parse_xyz_extra(text)
+                file_rows = [(i, _hexrow(r) if len(r) == 3 else None) for i, r in enumerate(rows)]
+                want_rows = list(enumerate(want[label]))
+            elif fmt == "obj":
+                refs = K.parse_obj_refs(text)
+                if not corners:
+                    rep.count("carried_not_expressible")     # OBJ ties vn / vt to vertices only through face corners
+                    continue
+                tbl, per = (refs["VN"], refs["FN"]) if name == "normals" else (refs["VT"], refs["FT"])
+                flat = [r for f in per for r in f]
+                file_rows = [(c, _hexrow(tbl[r]) if r is not None else None) for c, r in enumerate(flat)]
+                want_rows = [(c, want[label][c if cname == "face_corners" else v]) for c, v in enumerate(corners)]
+                if [v for f in refs["F"] for v in f] != corners:
+                    file_rows = None
+            else:
+                ref = K.parse_geogram(text, [])
+                ra = ref["attrs"].get(GEO_SET[cname] + "|" + name)
+                if ra is None or ra["type"] not in K._GEO_FLOAT or ra["dim"] != arity:
+                    file_rows = [(i, None) for i in range(sizes[cname])]
+                else:
+                    file_rows = [(i, _hexrow(r)) for i, r in enumerate(ra["values"])]
+                want_rows = list(enumerate(want[label]))
+        except (K.RefParseError, ValueError, TypeError, IndexError) as e:
+            bad("file_values", "mouette.mesh.save", label, "mismatch:malformed_file", {"reference_reader": str(e)})
+            continue
+        rep.outcome(f"carried.file:{fmt}", "same" if file_rows == want_rows else "differs")
+        if file_rows != want_rows:
+            missing = file_rows is None or all(r is None for _, r in file_rows)
+            bad("file_values", "mouette.mesh.save", label, "mismatch:attribute_missing" if missing else "mismatch:attribute_values",
+                {"attribute": label, "the_file_says": (file_rows or [])[:12], "the_mesh_has": want_rows[:12]})
+            continue
+        rep.flag(f"carried_{gen}file_ok:{fmt}:{label}")
+        # ---------------- the reloaded mesh (the prepared object and the raw data)
+        for raw in (False, True):
+            obj = loaded(raw)
+            rep.transitions += 1
+            if obj is None:
+                all_ok[0] = False
+                break
+            if fmt == "obj" and cname == "vertices" and name == "uv_coords":
+                # per-vertex texture coordinates are written as one vt reference per corner: they may come back per corner
+                nc = len(corners)
+                p1, got1 = _loaded_attr(obj, "face_corners", "uv_coords", 2, nc)
+                p2, got2 = _loaded_attr(obj, "vertices", "uv_coords", 2, sizes["vertices"])
+                ok = (p1 is None and got1 == [want[label][v] for v in corners]) or \
+                     (p2 is None and [got2[v] for v in in_face] == [want[label][v] for v in in_face])
+                prob = None if ok else (p1 if p2 else p2)
+                got, wnt = got1 if got1 is not None else got2, [want[label][v] for v in corners]
+            else:
+                prob, got = _loaded_attr(obj, cname, name, arity, sizes[cname])
+                idx = in_face if (fmt == "obj" and cname == "vertices") else range(sizes[cname])
+                wnt = [want[label][i] for i in idx]
+                got = [got[i] for i in idx] if got is not None else None
+                ok = prob is None and got == wnt
+            rep.evaluations += 2
+            rep.outcome(f"carried.load:{fmt}", "same" if ok else "differs")
+            if not ok:
+                bad("loaded_values", "mouette.mesh.load", label,
+                    "mismatch:attribute_" + (prob.split(":")[0] if prob else "values"),
+                    {"attribute": label, "raw": raw, "problem": prob, "loaded": (got or [])[:12], "the_mesh_had": wnt[:12]})
+                break
+        else:
+            rep.flag(f"carried_{gen}loaded_ok:{fmt}:{label}")
+    return all_ok[0]
+
+
+def _carried_second_generation(ctx, spec, path, fmt, sw, small):
+    """m1 = load(save(m)) carries what the format carries; saving m1 again must give a file that means m1 to the independent
+    reader (geometry and carried values) and that loads back alike: save -> load -> save -> load on one mesh"""
+    from mc import c04_codecs as K
+    M, rep = ctx.M, ctx.rep
+    if fmt not in CARRIES:
+        return
+    with open(path, "r", newline="") as f:
+        ref1 = K.PARSERS[fmt](f.read())
+    o1 = call(M.mesh.load, path)
+    if not o1.ok:
+        return
+    snap1 = snapshot(o1.value)
+    sw2 = {a: b for a, b in sw.items() if a not in ("ign", "strict")}
+    exp2 = expectation(snap1, {"E": ref1["E"]}, fmt, sw2)
+    p2 = ctx.path(fmt)
+    rep.states += 1; rep.traces += 1; rep.transitions += 1
+    rep.case((spec["name"], fmt, sw["id"], "carried-second-generation"))
+    small = {**small, "history": "m1 = load(save(m)); save(m1, file2); load(file2)", "m1": {"class": snap1["cls"], "F": snap1["F"][:12]}}
+    o2 = call(M.mesh.save, o1.value, p2)
+    if not o2.ok or not os.path.exists(p2):
+        _violation(rep, "C04.carried.regen_accepts", "mouette.mesh.save", exc_kind(o2) if not o2.ok else "mismatch:no_file_written",
+                   _carried_class(ctx, ("regen", "accepts"), fmt, sw), {**small, "msg": o2.msg})
+        return
+    with open(p2, "r", newline="") as f:
+        text2 = f.read()
+    _, wf2 = _judge_written(rep, fmt, text2, exp2)
+    rf2 = None if wf2 else _judge_reloaded(M, rep, p2, exp2)[0]
+    rep.outcome("carried.regen:" + fmt, wf2[0][0] if wf2 else rf2[0] if rf2 else "same")
+    for clause, kind, detail in (wf2 or ([rf2] if rf2 else [])):
+        _violation(rep, f"C04.carried.regen_{clause}", "mouette.mesh.save" if wf2 else "mouette.mesh.load", kind,
+                   _carried_class(ctx, ("regen", clause, kind), fmt, sw), {**small, **detail, "file2": text2[:1500]})
+    if wf2 or rf2:
+        return
+    if _carried_values(ctx, spec, exp2, p2, fmt, sw2, small, gen="regen_"):
+        rep.count("carried_regen_clean:" + fmt)
+
+
+def _child_map(items, fn, rep):
+    """fn(item) -> JSON-able value for every item, in sacrificial children (restarted after a death)
+    -> list of ("ok", value) | ("crash", description)"""
+    todo, res = list(range(len(items))), {}
+    while todo:
+        done, death = _child_stream(todo, lambda k: fn(items[k]))
+        rep.count("stl_children_forked")
+        for k, v in zip(todo, done):
+            res[k] = ("ok", v)
+        if len(done) < len(todo):
+            res[todo[len(done)]] = ("crash", death or "child ended early")
+            todo = todo[len(done) + 1:]
+        else:
+            todo = []
+    return [res[k] for k in range(len(items))]
+
+
+def _load_dump(M, path, args=(), kwargs=None, attrs=None):
+    """one call of mouette.mesh.load -> JSON-able outcome: the exception, or the type and content of what came back"""
+    o = call(M.mesh.load, *((path,) if path is not None else ()), *args, **(kwargs or {}))
+    if not o.ok:
+        return {"ok": False, "exc": o.exc, "msg": o.msg}
+    s = snapshot(o.value)
+    s["V"] = _hexes(s["V"])
+    if attrs:
+        d = call(_attr_dump, o.value, s, attrs)
+        s["attrs"] = d.value if d.ok else {"!": f"{d.exc}: {d.msg}"}
+    return {"ok": True, "snap": s}
+
+
+def _carried_read(ctx, spec, salt, fmt, pending):
+    """the independent writer's file with NON-TRIVIAL normals / texture coordinates (xyz columns, obj vn / vt records
+    referred to through reversed indices, ASCII STL facet normals): geometry as in the plain file, attribute values back"""
+    from mc import c04_codecs as K
+    M, rep = ctx.M, ctx.rep
+    stl = fmt == "stl"
+    V = _vertices_of(spec, salt, stl)
+    fok = FACE_OK[fmt]
+    model = {"V": V, "attrs": {}, "E": [sorted(e) for e in spec["E"]] if fmt in EDGE_FORMATS else [],
+             "F": [f for f in spec["F"] if (len(f) == 3 if stl else fok is None or len(f) in fok)], "C": []}
+    if spec["C"] or (fmt != "xyz" and not model["F"]):
+        return
+    sizes = _carry_sizes(model)
+    corners = [v for f in model["F"] for v in f]
+    in_face = sorted(set(corners))
+    wcls, wantE = _content_expectation(model, fmt, True)
+    for cset in [None] + CARRY_READ[fmt]:
+        labels = cset.split("+") if cset else []
+        vals = {lb: [_carry_row(lb, i, CARRY_ATTRS[lb][2], "full", stl) for i in range(sizes[CARRY_ATTRS[lb][0]])] for lb in labels}
+        if stl:
+            V32 = [[K.f32(c) for c in p] for p in V]
+            tris = [[V32[v] for v in f] for f in model["F"]]
+            text = K.write_stl_ascii_carried(tris, vals.get("faces.normals") or [[0.0, 0.0, 0.0]] * len(tris))
+        elif fmt == "xyz":
+            text = K.write_xyz_carried(model, vals["vertices.normals"]) if cset else K.write_xyz(model, 0)
+        else:
+            text = K.write_obj_carried(model, vals.get("vertices.normals"), vals.get("face_corners.uv_coords"))
+        path = ctx.path(fmt)
+        with open(path, "w", newline="\n") as f:
+            f.write(text)
+        rep.states += 1; rep.traces += 1
+        rep.case((spec["name"], fmt, "carried-read", cset))
+        small = {"mesh": spec["name"], "format": fmt, "written_by": "the independent writer", "attributes": cset, "file": text[:1500]}
+
+        def judge(res, cset=cset, labels=labels, vals=vals, small=small):
+            """res = [outcome of load(path), outcome of load(path, raw=True)] (or a crash)"""
+            rep.transitions += 2
+            if res[0] == "crash":
+                fail = ("loads", "crash", {"child": res[1]})
+            else:
+                fail = None
+                for raw, d in zip((False, True), res[1]):
+                    if not d["ok"]:
+                        fail = ("loads", "raises:" + d["exc"], {"msg": d["msg"], "raw": raw})
+                        break
+                    got = d["snap"]
+                    rep.evaluations += 5
+                    if stl:
+                        soup = _soup_of_snapshot({"V": [[float.fromhex(c) for c in p] for p in got["V"]], "F": got["F"]})
+                        wsoup = sorted(_rot_min([tuple(p) for p in t]) for t in tris)
+                        if soup != wsoup:
+                            fail = ("faces", "mismatch:triangle_soup", {"got": (soup or got["F"])[:6], "want": wsoup[:6], "raw": raw})
+                    else:
+                        got = dict(got, V=[[float.fromhex(c) if isinstance(c, str) and not c.startswith("!") else c for c in p] for p in got["V"]])
+                        if raw:
+                            got = dict(got, cls=wcls, E=sorted(wantE))          # the raw data: no class, no completed edges
+                            if _eset(d["snap"]["E"]) != _eset(model["E"]):
+                                fail = ("edges", "mismatch:edges", {"got": d["snap"]["E"][:8], "want": model["E"][:8], "raw": True})
+                        fail = fail or _judge_text_load(got, model, fmt, wantE, wcls)
+                        if fail:
+                            fail = (fail[0], fail[1], {**fail[2], "raw": raw})
+                    if fail:
+                        break
+            if cset is None:
+                ctx.seen["read-base"] = fail[:2] if fail else None
+                rep.count("carried_read_plain_ok" if not fail else "carried_read_plain_wrong")
+                return
+            if fail:
+                if ctx.seen.get("read-base") == fail[:2]:
+                    rep.count("carried_same_as_without_attribute")
+                else:
+                    rep.flag(f"carried_reported:read:{fmt}:{cset}")
+                    _violation(rep, "C04.carried.read_" + fail[0], "mouette.mesh.load", fail[1], f"{fmt}:{cset}", {**small, **fail[2]})
+                return
+            for label in labels:
+                cname, name, arity = CARRY_ATTRS[label]
+                idx = in_face if (fmt == "obj" and cname == "vertices") else list(range(sizes[cname]))
+                wnt = [_hexrow(vals[label][i]) for i in idx]
+                for raw, d in zip((False, True), res[1]):
+                    a = d["snap"].get("attrs", {}).get(f"{cname}|{name}")
+                    rep.evaluations += 3
+                    if stl and a is not None and len(a["values"]) == len(wnt):
+                        # the triangle soup fixes the faces up to order: pair every normal with its triangle
+                        Vg = [[float.fromhex(c) for c in p] for p in d["snap"]["V"]]
+                        gotp = sorted((_rot_min([Vg[v] for v in f]), r) for f, r in zip(d["snap"]["F"], a["values"]))
+                        ok = gotp == sorted((_rot_min([tuple(p) for p in t]), w) for t, w in zip(tris, wnt))
+                        got = a["values"]
+                    else:
+                        got = None if a is None or len(a["values"]) < sizes[cname] else [a["values"][i] for i in idx]
+                        ok = a is not None and a["arity"] == arity and a["type"].lower() == "float" and got == wnt
+                    rep.outcome(f"carried.read:{fmt}", "same" if ok else "differs")
+                    if not ok:
+                        rep.flag(f"carried_reported:read:{fmt}:{label}")
+                        _violation(rep, "C04.carried.read_values", "mouette.mesh.load",
+                                   "mismatch:attribute_missing" if a is None else "mismatch:attribute_values", f"{fmt}:{label}",
+                                   {**small, "attribute": label, "raw": raw, "loaded": (got if got is not None else a and a["values"] or [])[:12],
+                                    "the_file_says": wnt[:12]})
+                        break
+                else:
+                    rep.flag(f"carried_read_ok:{fmt}:{label}")
+
+        only = sorted({CARRY_ATTRS[lb][0] for lb in CARRY_ATTRS})
+        job = lambda path=path: [_load_dump(M, path, (), {}, only), _load_dump(M, path, (), {"raw": True}, only)]
+        if stl:
+            pending.append((job, judge))
+        else:
+            judge(("ok", job()))
+
+
+def run_carried(task, rep, tmp):
+    import mouette as M
+    fmt = task["fmt"]
+    pending = []                  # STL: (path, continuation) for stl_load_many
+    jobs = []                     # STL read side: (job, continuation) for _child_map
+    bases = [("default", {}), ("C=0", {"C": False})] + ([("X=0", {"X": False})] if fmt == "obj" else []) + \
+        [("ign=faces", {"ign": ["faces"], "strict": True}), ("ign=edges", {"ign": ["edges"], "strict": True})]
+    for k, spec in enumerate(CARRY_HOSTS):
+        ctx = _Ctx(M, rep, tmp, tag="c" + str(k), pending=pending, mode="carried")
+        for bt, base in bases:
+            # first the same mesh without any attribute (the base line), then every attribute set; every storage under the
+            # default switches, the first one under the deviations
+            run_case(ctx, spec, 3 * k + 1, fmt, {"id": f"K:{bt}:none", "bt": bt, "base": True, **base})
+            for cset in CARRY_SETS[spec["host"]]:
+                for dense, pattern in (CARRY_STORAGE if bt == "default" else CARRY_STORAGE[:1]):
+                    sw = {"id": f"K:{bt}:{cset}:{'dense' if dense else 'sparse'}:{pattern}", "bt": bt, "carry": cset, **base}
+                    rep.flag(f"carried_ran:{fmt}:{cset}")
+                    rep.flag(f"carried_base:{bt}")
+                    run_case(ctx, dict(spec, carry={"set": cset, "dense": dense, "pattern": pattern}), 3 * k + 1, fmt, sw)
+            if fmt != "stl":
+                for fn in os.listdir(tmp):
+                    os.unlink(os.path.join(tmp, fn))
+        if fmt in CARRY_READ:
+            _carried_read(ctx, spec, 3 * k + 1, fmt, jobs)
+    if pending:
+        results = stl_load_many(M, [p for p, _ in pending], rep)
+        for (_, later), res in zip(pending, results):
+            later(res)
+    if jobs:
+        for (_, judge), res in zip(jobs, _child_map([j for j, _ in jobs], lambda j: j(), rep)):
+            judge(res)
+
+
+# ================================================================================================ documented defaults
+# The documented signatures of the entry points of this property, copied from the unchanged tree (NOT read from the
+# library at run time: a change of a default changes the signature as well): parameters in order, defaults by name.
+DOCUMENTED = {
+    "mouette.mesh.load": {"params": ["filename", "dim", "raw"], "defaults": {"dim": None, "raw": False}},
+    "mouette.mesh.save": {"params": ["mesh", "filename", "ignore_elements"], "defaults": {"ignore_elements": None}},
+}
+DOCUMENTED_CONFIG = {"export_edges_in_obj": True, "complete_edges_from_faces": True, "complete_faces_from_cells": True}
+DEFAULT_HOSTS = CARRY_HOSTS
+# (dim, raw) values other than the defaults, every one passed by keyword, positionally and with the other one omitted
+LOAD_VALUES = [(3, False), (1, False), (0, False), (None, True), (2, True)]
+
+
+@contextmanager
+def _config_as(M, values):
+    cfg = M.config
+    old = {k: getattr(cfg, k) for k in DOCUMENTED_CONFIG}
+    try:
+        for k, v in values.items():
+            setattr(cfg, k, v)
+        yield
+    finally:
+        for k, v in old.items():
+            setattr(cfg, k, v)
+
+
+def _same_default(a, b):
+    return type(a) is type(b) and a == b
+
+
+def run_signature(rep):
+    """the cheap guard: the documented table against inspect.signature(); a difference IS the defect"""
+    import inspect
+    import mouette as M
+    for callee, doc in DOCUMENTED.items():
+        fn = getattr(M.mesh, callee.rsplit(".", 1)[1])
+        params = inspect.signature(fn).parameters
+        names = list(params)
+        rep.evaluations += 1 + len(doc["defaults"])
+        rep.flag("signature:" + callee)
+        if names != doc["params"]:
+            k = next((i for i, (a, b) in enumerate(zip(names, doc["params"])) if a != b), min(len(names), len(doc["params"])))
+            rep.violation("C04.defaults.signature", callee, "mismatch:parameter_order",
+                          (doc["params"] + names)[k] if k >= len(doc["params"]) else doc["params"][k],
+                          {"documented": doc["params"], "signature": names})
+        for name, dv in doc["defaults"].items():
+            if name in params and not _same_default(params[name].default, dv):
+                rep.violation("C04.defaults.signature", callee, "mismatch:default_value", name,
+                              {"parameter": name, "documented_default": repr(dv), "signature_default": repr(params[name].default)})
+        for name in doc["params"]:
+            if name not in doc["defaults"] and name in params and params[name].default is not inspect.Parameter.empty:
+                rep.violation("C04.defaults.signature", callee, "mismatch:default_value", name,
+                              {"parameter": name, "documented_default": "none (required)", "signature_default": repr(params[name].default)})
+    for name, dv in DOCUMENTED_CONFIG.items():
+        rep.flag("signature:config:" + name)
+        rep.evaluations += 1
+        if not _same_default(getattr(M.config, name, "!missing"), dv):
+            rep.violation("C04.defaults.config", "mouette.config." + name, "mismatch:default_value", name,
+                          {"switch": name, "documented_default": repr(dv), "value_after_import": repr(getattr(M.config, name, "!missing"))})
+
+
+def _save_outcome(M, spec, V, path, args, kwargs, mesh_kw=False):
+    """one call of mouette.mesh.save on a FRESH mesh -> comparable outcome (exception class / no file / the bytes)"""
+    mesh = _build(M, spec, V)
+    if os.path.exists(path):
+        os.unlink(path)
+    o = call(M.mesh.save, mesh=mesh, filename=path, **kwargs) if mesh_kw else call(M.mesh.save, mesh, path, *args, **kwargs)
+    if not o.ok:
+        return ["raises", o.exc, o.msg[:200]]
+    if not os.path.exists(path):
+        return ["no file"]
+    with open(path, "rb") as f:
+        return ["bytes", f.read().decode("latin-1")]
+
+
+def _outcome_kind(got, want):
+    if got[0] == "raises" and want[0] != "raises":
+        return "raises:" + got[1]
+    return None
+
+
+def run_defaults(task, rep, tmp):
+    """Every optional argument of save / load OMITTED (one at a time and all together) must mean its documented default
+    passed explicitly; options passed positionally in the documented order must mean the same as passed by keyword; the
+    process-global export switches left untouched must mean their documented defaults."""
+    import mouette as M
+    from mc import c04_codecs as K
+    fmt = task["fmt"]
+    stl = fmt == "stl"
+    fails = {}                                # (subcheck, callee, kind, class) -> first detail
+
+    def differ(subcheck, callee, kind, icls, detail):
+        fails.setdefault((subcheck, callee, kind, icls), detail)
+
+    load_jobs = []                            # (forms, path, small, content class)
+    for k, spec in enumerate(DEFAULT_HOSTS):
+        V = _vertices_of(spec, 5 * k + 2, stl)
+        small = {"mesh": spec["name"], "V": V, "E": spec["E"], "F": spec["F"], "C": spec["C"], "format": fmt}
+        rep.states += 1; rep.traces += 1
+        # ---------------------------------------------------------------- save
+        p = os.path.join(tmp, f"s{k}.{fmt}")
+        owned = [s for s in IGN_KINDS if (s == "edges" and (spec["E"] or spec["F"] or spec["C"])) or (s == "faces" and (spec["F"] or spec["C"]))
+                 or (s == "cells" and spec["C"])]
+        ref = _save_outcome(M, spec, V, p, (None,), {})
+        forms = [("omitted", "ignore_elements", (), {}, False, ref),
+                 ("keyword", "ignore_elements", (), {"ignore_elements": None}, False, ref),
+                 ("keyword", "ignore_elements", (), {"ignore_elements": None}, True, ref),
+                 ("omitted", "ignore_elements", (), {}, True, ref)]
+        for kind in owned:
+            refS = _save_outcome(M, spec, V, p, ({kind},), {})
+            rep.transitions += 1
+            if refS != ref:
+                rep.flag("defaults:matters:mouette.mesh.save:ignore_elements")
+            forms.append(("keyword", "ignore_elements", (), {"ignore_elements": {kind}}, False, refS))
+            forms.append(("keyword", "ignore_elements", (), {"ignore_elements": {kind}}, True, refS))
+        for how, param, args, kwargs, mesh_kw, want in forms:
+            got = _save_outcome(M, spec, V, p, args, kwargs, mesh_kw)
+            rep.transitions += 1; rep.evaluations += 1
+            rep.case((spec["name"], fmt, "save", how, mesh_kw, sorted(map(str, kwargs.items()))))
+            rep.flag(f"defaults:{how}:mouette.mesh.save:{param}")
+            rep.outcome("defaults.save:" + how, "same" if got == want else "differs")
+            if got != want:
+                kind = _outcome_kind(got, want) or ("mismatch:default_value" if how == "omitted" else "mismatch:keyword_vs_positional")
+                differ(f"C04.defaults.{how}", "mouette.mesh.save", kind, param,
+                       {**small, "call": f"save({'mesh=m, filename=p' if mesh_kw else 'm, p'}" + "".join(f", {a}={b!r}" for a, b in kwargs.items()) + ")",
+                        "compared_with": "save(m, p, " + ("None" if want is ref else "the same set, positionally") + ")",
+                        "got": [x[:600] if isinstance(x, str) else x for x in got], "want": [x[:600] if isinstance(x, str) else x for x in want]})
+        # ---------------------------------------------------------------- load: the independent writer's file
+        fok, cok = FACE_OK[fmt], CELL_OK.get(fmt, ())
+        model = {"V": V, "attrs": {}, "E": [sorted(e) for e in spec["E"]] if fmt in EDGE_FORMATS else [],
+                 "F": [f for f in spec["F"] if (len(f) == 3 if stl else fok is None or len(f) in fok)],
+                 "C": [c for c in spec["C"] if len(c) in cok]}
+        lp = os.path.join(tmp, f"l{k}.{fmt}")
+        if stl:
+            if not model["F"]:
+                continue
+            V32 = [[K.f32(c) for c in q] for q in V]
+            with open(lp, "wb") as f:
+                f.write(K.write_stl_binary([[V32[v] for v in fc] for fc in model["F"]]))
+        else:
+            with open(lp, "w", newline="\n") as f:
+                f.write(K.WRITERS[fmt](model, 0))
+        # (how, parameter class, args after the path, kwargs, path by keyword, index of the reference form)
+        lforms = [("reference", None, (), {"dim": None, "raw": False}, False, None),
+                  ("omitted", "dim+raw", (), {}, False, 0), ("omitted", "raw", (), {"dim": None}, False, 0),
+                  ("omitted", "dim", (), {"raw": False}, False, 0), ("positional", "dim,raw", (None, False), {}, False, 0),
+                  ("positional", "dim,raw", (None,), {"raw": False}, False, 0),
+                  ("keyword", "filename", (), {"dim": None, "raw": False}, True, 0), ("omitted", "dim+raw", (), {}, True, 0)]
+        for d, r in LOAD_VALUES:
+            base = len(lforms)
+            lforms.append(("reference", None, (), {"dim": d, "raw": r}, False, None))
+            lforms.append(("positional", "dim,raw", (d, r), {}, False, base))
+            lforms.append(("positional", "dim,raw", (d,), {"raw": r}, False, base))
+            lforms.append(("keyword", "filename", (), {"raw": r, "dim": d}, True, base))
+            if r is False:
+                lforms.append(("omitted", "raw", (), {"dim": d}, False, base))
+                lforms.append(("positional", "dim,raw", (d,), {}, False, base))
+            if d is None:
+                lforms.append(("omitted", "dim", (), {"raw": r}, False, base))
+        load_jobs.append((lforms, lp, small))
+
+    def run_forms(job):
+        lforms, lp, _ = job
+        return [_load_dump(M, None if bykw else lp, args, dict(kwargs, filename=lp) if bykw else kwargs)
+                for _, _, args, kwargs, bykw, _ in lforms]
+
+    if stl:
+        results = _child_map(load_jobs, run_forms, rep)
+    else:
+        results = [("ok", run_forms(j)) for j in load_jobs]
+    for (lforms, lp, small), (st, outs) in zip(load_jobs, results):
+        if st != "ok":
+            rep.count("defaults_child_died")         # a crash of the loader is the read clause's finding
+            continue
+        failing = []
+        for (how, param, args, kwargs, bykw, refk), got in zip(lforms, outs):
+            rep.transitions += 1
+            if refk is None:
+                continue
+            want = outs[refk]
+            rep.evaluations += 1
+            rep.case((small["mesh"], fmt, "load", how, param, repr(args), sorted(map(str, kwargs.items())), bykw))
+            for q in param.replace("+", ",").split(","):
+                rep.flag(f"defaults:{how}:mouette.mesh.load:{q}")
+            strip = lambda o: {a: b for a, b in o.items() if a != "msg"}
+            rep.outcome("defaults.load:" + how, "same" if strip(got) == strip(want) else "differs")
+            if strip(got) != strip(want):
+                failing.append((how, param, args, kwargs, bykw, got, want, lforms[refk]))
+        if outs[0]["ok"]:
+            for (how, _, _, kwargs, _, refk), got in zip(lforms, outs):
+                if how == "reference" and refk is None and got != outs[0]:
+                    for q, dv in DOCUMENTED["mouette.mesh.load"]["defaults"].items():
+                        if not _same_default(kwargs[q], dv):
+                            rep.flag(f"defaults:matters:mouette.mesh.load:{q}")
+        single = {param for how, param, *_ in failing if how == "omitted" and "+" not in param}
+        for how, param, args, kwargs, bykw, got, want, refform in failing:
+            if how == "omitted" and "+" in param and single:
+                continue                           # all omitted: the single omissions say which parameter it is
+            kind = ("raises:" + got["exc"]) if (not got["ok"] and want["ok"]) else \
+                ("mismatch:default_value" if how == "omitted" else "mismatch:positional_vs_keyword" if how == "positional"
+                 else "mismatch:keyword_vs_positional")
+            text = lambda a, kw, bk: "load(" + ", ".join((["filename=p"] if bk else ["p"]) + [repr(x) for x in a] + [f"{x}={y!r}" for x, y in kw.items()]) + ")"
+            short = lambda o: {"raises": o["exc"], "msg": o["msg"][:200]} if not o["ok"] else \
+                {"class": o["snap"]["cls"], "E": o["snap"]["E"][:12], "F": o["snap"]["F"][:8], "C": o["snap"]["C"][:4]}
+            differ(f"C04.defaults.{how}", "mouette.mesh.load", kind, param if how != "omitted" or "+" not in param else "all-omitted",
+                   {**small, "call": text(args, kwargs, bykw), "compared_with": text(refform[2], refform[3], refform[4]),
+                    "got": short(got), "want": short(want), "file_written_by": "the independent writer"})
+    # -------------------------------------------------------------------- process-global switches left untouched
+    if not stl:
+        for k, spec in enumerate(DEFAULT_HOSTS):
+            V = _vertices_of(spec, 5 * k + 2, False)
+            p = os.path.join(tmp, f"c{k}.{fmt}")
+            lp = os.path.join(tmp, f"l{k}.{fmt}")
+
+            def both():
+                return [_save_outcome(M, spec, V, p, (), {}), _load_dump(M, lp), _load_dump(M, lp, (), {"raw": True})]
+
+            with _config_as(M, DOCUMENTED_CONFIG):
+                want = both()
+            for name, dv in DOCUMENTED_CONFIG.items():
+                with _config_as(M, {q: v for q, v in DOCUMENTED_CONFIG.items() if q != name}):
+                    got = both()                     # `name` keeps the value the library gave it at import
+                with _config_as(M, dict(DOCUMENTED_CONFIG, **{name: not dv})):
+                    other = both()
+                rep.transitions += 6; rep.evaluations += 3
+                rep.case((spec["name"], fmt, "config", name))
+                rep.flag("defaults:config:" + name)
+                if other != want:
+                    rep.flag("defaults:config_matters:" + name)
+                rep.outcome("defaults.config", "same" if got == want else "differs")
+                if got != want:
+                    which = next(i for i in range(3) if got[i] != want[i])
+                    differ("C04.defaults.config", "mouette.config." + name, "mismatch:default_value", name,
+                           {"mesh": spec["name"], "format": fmt, "switch": name, "documented_default": dv,
+                            "value_found": repr(getattr(M.config, name, "!missing")),
+                            "differs_in": ["save(m, p)", "load(p)", "load(p, raw=True)"][which],
+                            "got": str(got[which])[:800], "want_as_with_the_documented_default": str(want[which])[:800]})
+    for (subcheck, callee, kind, icls), detail in sorted(fails.items(), key=lambda kv: kv[0]):
+        rep.violation(subcheck, callee, kind, icls, detail)
+
+
 # ================================================================================================ entry points
 def run_task(task, rep: Report):
     import mouette as M
     if task["kind"] == "selftest":
         from mc import c04_codecs as K
-        assert K.selftest()
+        assert K.selftest() and K.selftest_carried()
         # the reference readers accept the repository's own sample files
         n = 0
         data = os.path.join(os.path.dirname(os.path.dirname(os.path.abspath(M.__file__))), "tests", "data")
@@ -1867,6 +2544,15 @@ def run_task(task, rep: Report):
             return
         if task["kind"] == "regen":
             run_regen(task, rep, tmp)
+            return
+        if task["kind"] == "signature":
+            run_signature(rep)
+            return
+        if task["kind"] == "carried":
+            run_carried(task, rep, tmp)
+            return
+        if task["kind"] == "defaults":
+            run_defaults(task, rep, tmp)
             return
         if task["kind"] == "ign":
             specs = family("sel", task["tier"])
@@ -1993,6 +2679,43 @@ def finish(tier, rep: Report):
     for t in ("bool", "int", "float"):
         if f"clean_attr_regen:{t}" not in rep.flags:
             fails.append(f"regen clause: no {t} attribute ever survived the second generation")
+    # ---- carried attributes
+    for fmt in FORMATS:
+        if not rep.counters.get("carriedclean:" + fmt):
+            fails.append(f"carried clause: no mesh with a well-known attribute passed every clause for format {fmt}")
+        for sets in CARRY_SETS.values():
+            for cset in sets:
+                if f"carried_ran:{fmt}:{cset}" not in rep.flags:
+                    fails.append(f"carried clause: the attribute set {cset} never ran for format {fmt}")
+    for fmt, labels in CARRIES.items():
+        for lb in labels:
+            for what in ("file", "loaded", "regen_file", "regen_loaded"):
+                if f"carried_{what}_ok:{fmt}:{lb}" not in rep.flags and f"carried_reported:{what}_values:{fmt}:{lb}" not in rep.flags \
+                        and "carried_reported:geometry:" + fmt not in rep.flags:
+                    fails.append(f"carried clause: the values of {lb} were never found right in / after a {fmt} file ({what}) nor reported")
+    for bt in ("default", "C=0", "X=0", "ign=faces", "ign=edges"):
+        if "carried_base:" + bt not in rep.flags:
+            fails.append(f"carried clause: never ran under the switches {bt}")
+    for fmt, sets in CARRY_READ.items():
+        for lb in {x for cset in sets for x in cset.split("+")}:
+            if f"carried_read_ok:{fmt}:{lb}" not in rep.flags and f"carried_reported:read:{fmt}:{lb}" not in rep.flags:
+                fails.append(f"carried clause: {lb} written by the independent writer never came back from a {fmt} file nor was reported")
+    if not rep.counters.get("carried_read_plain_ok"):
+        fails.append("carried clause: no plain file of the independent writer loaded right")
+    # ---- documented defaults: every entry of the table was exercised in every way, and every parameter matters
+    for callee, doc in DOCUMENTED.items():
+        if "signature:" + callee not in rep.flags:
+            fails.append(f"defaults clause: the signature of {callee} was never compared with the documented one")
+        for q in doc["defaults"]:
+            for how in ("omitted", "keyword", "matters") + (("positional",) if callee.endswith("load") else ()):
+                if f"defaults:{how}:{callee}:{q}" not in rep.flags and not (how == "keyword" and callee.endswith("load")):
+                    fails.append(f"defaults clause: parameter {q} of {callee} never exercised: {how}")
+    if "defaults:keyword:mouette.mesh.load:filename" not in rep.flags:
+        fails.append("defaults clause: load(filename=...) never exercised")
+    for name in DOCUMENTED_CONFIG:
+        for what in ("signature:config:", "defaults:config:", "defaults:config_matters:"):
+            if what + name not in rep.flags:
+                fails.append(f"defaults clause: switch {name} never exercised ({what.rstrip(':')})")
     # the clauses can PASS on every element kind the unchanged tree handles (a guard that needs no defect to hold)
     for fmt, kinds in CLEAN_FLOOR.items():
         for k in kinds:
